@@ -321,6 +321,12 @@ func (g *Group) Search(prefix string, cmp SearchFunc) (*GroupReader, bool, error
 		}
 		foundIndex, line, err := scanNext(r, prefix)
 		r.Close()
+		if err == io.EOF {
+			// no marker line from the middle file to the end of the group (the head was rotated away
+			// since the last marker was written): the line, if there is one, is in a lower file
+			maxIndex = curIndex - 1
+			continue
+		}
 		if err != nil {
 			return nil, false, err
 		}
